@@ -485,6 +485,66 @@ def rule_not_full(chk, prog):
     return n
 
 
+def rule_append_same(chk, prog, units_prefix=("lib/sqfs/src/", "lib/common/src/")):
+    """K12-appendsame (a contradiction rule): `if (v != list[i - 1]) list[i++] = w;` -- a value is appended to a list when it
+    differs from the list's last element.  The value that is appended is the value that was compared: if the two are
+    different expressions (a position in one coordinate system compared, the same position in another one stored), the
+    comparison is always true or the list does not hold what its reader expects."""
+    n = 0
+    for f in prog.functions():
+        if f.decl or not f.unit.src.startswith(units_prefix) or "/test/" in f.unit.src:
+            continue
+        f.build()
+        for st in f.insts():
+            if st.op != "store" or st.ops[0].is_const:
+                continue
+            p = strip_casts(st.ops[1])
+            if not (p.is_inst and p.op == "getelementptr"):
+                continue
+            idx = [el[1] for el in p.x["gep"] if el[0] in ("*", "[]") and not el[1].is_const]
+            if len(idx) != 1:
+                continue
+            base = strip_casts(p.ops[0])
+            for cond, outcome, br in f.guards_at(st.bb):
+                if not (cond.is_inst and cond.op == "icmp" and cond.pred in ("ne", "eq") and outcome == (cond.pred == "ne")):
+                    continue
+                for (v, l) in ((cond.ops[0], cond.ops[1]), (cond.ops[1], cond.ops[0])):
+                    ul = l
+                    while ul.is_inst and ul.op in ("zext", "sext", "trunc"):
+                        ul = ul.ops[0]
+                    if not (ul.is_inst and ul.op == "load"):
+                        continue
+                    q = strip_casts(ul.ops[0])
+                    if not (q.is_inst and q.op == "getelementptr" and strip_casts(q.ops[0]) is base):
+                        continue
+                    qi = [el[1] for el in q.x["gep"] if el[0] in ("*", "[]") and not el[1].is_const]
+                    if len(qi) != 1:
+                        continue
+                    # index of the compared element is the store's index minus one
+                    a, b = strip_casts(qi[0]), strip_casts(idx[0])
+                    prev = a.is_inst and a.op in ("sub", "add") and any(strip_casts(o) is b for o in a.ops) and \
+                        any(o.is_const and o.is_int and o.sval in (1, -1) for o in a.ops)
+                    if not prev:
+                        continue
+                    n += 1
+                    chk.analysed(f)
+                    inst = "%s:append@%d" % (f.name, st.line)
+                    uv, uw = v, st.ops[0]
+                    while uv.is_inst and uv.op in ("zext", "sext", "trunc"):
+                        uv = uv.ops[0]
+                    while uw.is_inst and uw.op in ("zext", "sext", "trunc"):
+                        uw = uw.ops[0]
+                    same = uv is uw or (uv.is_inst and uw.is_inst and uv.op == "load" and uw.op == "load" and
+                                        strip_casts(uv.ops[0]) is strip_casts(uw.ops[0]))
+                    if same:
+                        chk.ok("K12-appendsame", inst, st, "the value appended is the value that was compared with the last element")
+                    else:
+                        chk.violation("K12-appendsame", inst, st, "a value is compared with the last element of the list but a different "
+                                      "expression is appended: the two are not in the same coordinate system, so the test never "
+                                      "sees an equal pair (or the list holds something else than what was tested)")
+    return n
+
+
 def run(chk):
     chk.explanation = (
         "The invariants themselves are predicates over image bytes (value-level). Decided: the structural checks the "
@@ -519,6 +579,8 @@ def run(chk):
     rule_sorted_tree(chk, load_program("gensquashfs"))
     rule_exact_lookup(chk, load_program("gensquashfs"))
     chk.floor("K2-sorted", 1)
+    rule_append_same(chk, load_program("gensquashfs"))
+    chk.floor("K12-appendsame", 1)
     # the metadata writer's block buffer and its fill level (a writer-side buffer bound: what runs over the 8 KiB block
     # lands in the writer's own bookkeeping and is then written out as metadata)
     from ..slack import run_fill
